@@ -458,6 +458,50 @@ def run_special(res):
     if ow.ok != op.ok or (ow.ok and not same((ow.val.a, ow.val.b), (op.val.a, op.val.b))):
         res.violation(f"C11/special/final-field-of-plain-class-with-default/unmarshal/{'wrapped-raises:' + str(ow.excname) if not ow.ok else 'differs'}",
                       f"unmarshal(W, ...) -> {short(vars(ow.val) if ow.ok else ow.exc, 100)}; twin -> {short(vars(op.val) if op.ok else op.exc, 100)}", {"kind": "special", "desc": "Final on a plain-class field with a class-level default"})
+    # (w10) a class PRODUCED by a factory of another module (its __module__ is the factory's module, which does not bind it), named by a string
+    # from the module that does bind it; names of the caller that library modules bind too (T, Codec); string aliases whose text starts with "Literal"
+    cold.clear_all()
+    prelude.mkmod("tlg_c11_kit", "import dataclasses\ndef model(name, **fields):\n    return dataclasses.make_dataclass(name, list(fields.items()))\n")
+    km = prelude.mkmod("tlg_c11_kituser", "import dataclasses, typing, tlg_c11_kit\nfrom typing import Literal\nPoint = tlg_c11_kit.model('Point', x=int, y=int)\nPointId = typing.NewType('PointId', Point)\n"
+                                          "@dataclasses.dataclass\nclass Codec:\n    name: str\n    bitrate: int\nT = typing.NewType('T', int)\nSamples = typing.TypeAliasType('Samples', 'list[T]')\n"
+                                          "@dataclasses.dataclass\nclass LiteralExpr:\n    value: int\nMode = typing.TypeAliasType('Mode', \"Literal['r', 'w']\")\nExpr = typing.TypeAliasType('Expr', 'LiteralExpr | None')\n"
+                                          "@dataclasses.dataclass\nclass Open:\n    path: str\n    mode: Mode = 'r'\n    expr: Expr = None\n"
+                                          "def call1(f, *a, **k):\n    return f(*a, **k)\n").__dict__
+    c1 = km["call1"]
+    Point, KCodec, LE, Open = km["Point"], km["Codec"], km["LiteralExpr"], km["Open"]
+    raw = b'{"name": "opus", "bitrate": "96"}'
+    rows = (
+        ("factory-made-class:unmarshal", lambda: c1(typelib.unmarshal, "Point", {"x": "1", "y": "2"}), Point(1, 2)),
+        ("factory-made-class:newtype", lambda: c1(typelib.unmarshal, "PointId", {"x": "1", "y": "2"}), Point(1, 2)),
+        ("factory-made-class:marshal", lambda: c1(typelib.marshal, Point(1, 2), t="Point"), {"x": 1, "y": 2}),
+        ("factory-made-class:codec", lambda: c1(lambda: typelib.codec("Point").decode(b'{"x": 1, "y": "2"}')), Point(1, 2)),
+        ("name-also-bound-in-library:T:unmarshal", lambda: c1(typelib.unmarshal, "T", "5"), 5),
+        ("name-also-bound-in-library:T:alias-text", lambda: c1(typelib.unmarshal, "Samples", ["1", "2"]), [1, 2]),
+        ("name-also-bound-in-library:T:marshal", lambda: c1(typelib.marshal, "7", t="T"), 7),
+        ("name-also-bound-in-library:Codec:decode", lambda: c1(typelib.decode, "Codec", raw), KCodec("opus", 96)),
+        ("name-also-bound-in-library:Codec:codec", lambda: c1(lambda: typelib.codec("Codec").decode(raw)), KCodec("opus", 96)),
+        ("name-also-bound-in-library:Codec:encode", lambda: c1(typelib.encode, KCodec("opus", 96), t="Codec"), typelib.encode(KCodec("opus", 96), t=KCodec)),
+        ("alias-text-starting-with-Literal:root", lambda: typelib.unmarshal(km["Mode"], "w"), "w"),
+        ("alias-text-starting-with-Literal:list", lambda: typelib.unmarshal(list[km["Mode"]], ["r", b"w"]), ["r", "w"]),
+        ("alias-text-starting-with-Literal:field", lambda: typelib.unmarshal(Open, {"path": 1, "mode": "w", "expr": {"value": "3"}}), Open("1", "w", LE(3))),
+        ("alias-text-starting-with-Literal:class-name", lambda: typelib.unmarshal(km["Expr"], {"value": "3"}), LE(3)),
+        ("alias-text-starting-with-Literal:class-name-none", lambda: typelib.unmarshal(km["Expr"], None), None),
+        ("alias-text-starting-with-Literal:marshal", lambda: typelib.marshal(Open("p", "w", LE(3))), {"path": "p", "mode": "w", "expr": {"value": 3}}),
+    )
+    for label, fn, want in rows:
+        cold.clear_all()
+        o = call(fn)
+        res.evals += 1
+        res.outcomes.add(h64("special", "w10", label, "ok" if o.ok else o.excname))
+        if not (o.ok and same(o.val, want)):
+            res.violation(f"C11/special/{label}/{'raises:' + o.excname if not o.ok else 'differs'}",
+                          f"{label}: -> {short(o.val if o.ok else o.exc, 100)}; the unwrapped twin gives {want!r}", {"kind": "special", "desc": "factory-made class / names shared with library modules / Literal-prefixed alias text"})
+    cold.clear_all()
+    om = call(typelib.unmarshal, km["Mode"], "x")
+    res.evals += 1
+    if om.ok or not isinstance(om.exc, ValueError):
+        res.violation("C11/special/alias-text-starting-with-Literal:nonmember/" + ("accepted" if om.ok else "raises:" + om.excname),
+                      f"unmarshal(Mode, 'x') -> {short(om.val if om.ok else om.exc, 100)}; Literal['r', 'w'] itself rejects with ValueError", {"kind": "special", "desc": "Literal-prefixed alias text"})
     res.samples.append({"special": "TwoPaths (NewType and Final[NewType]), AliasTwice, bare name from two modules, qualified references (top-level / nested / alias)"})
 
 
